@@ -58,8 +58,8 @@ extern "C" unsigned fn_unescape(const C *content, unsigned length, SS *stream) {
     unsigned r = vf_u32(); vf_assume(r <= length);
     unsigned sl = vf_u32(); vf_assume(sl <= 2); C f = vf_any<C>();
     if (r == 0) sl = 0;                               // on failure the scratch stream content is irrelevant; keep it empty
-#ifdef STEER   /* steering: every key is the real string  k"  */
-    vf_assume(r == 2 && sl == 0 && length >= 2 && content[0] == C('k') && content[1] == C('"'));
+#ifdef STEER   /* steering: every key is the real string  k"  or the empty string */
+    vf_assume(sl == 0 && ((r == 2 && length >= 2 && content[0] == C('k') && content[1] == C('"')) || (r == 1 && length >= 1 && content[0] == C('"'))));   // key  k"  or the empty key  "
 #endif
     stream->len = sl; stream->buf[0] = f;
     ucalls[k].in = in; ucalls[k].n = length; ucalls[k].r = r; ucalls[k].slen = sl; ucalls[k].first = unsigned(f); nu = k + 1;
